@@ -79,7 +79,8 @@ def run_pipeline(case, col, judge=True):
             info['reached'] = name
         except (KeyboardInterrupt, SystemExit):
             raise
-        except pg.Oversize:
+        except (pg.Oversize, pg.ErasureBudget):
+            info['oversize'] = True
             return out, info
         except BaseException as e:
             if type(e).__module__.startswith('hypothesis'):
@@ -103,7 +104,7 @@ def account(case, viols, info, col):
                              'erased': info.get('te'), 'injected': info.get('to'),
                              'program_head': info['texts']['G'][:400]})
     col.feature('pipelines_' + case.mode)
-    if case.oversize:
+    if case.oversize or (info and info.get('oversize')):
         col.feature('discarded_oversize')
     if info:
         col.feature('reached_' + info['reached'])
